@@ -469,13 +469,17 @@ class World(SessionWorld):
         M = self.M
         pend = [r for r in self.order if r.id is not None and not r.answered and r.kind != "cancel" and r.id != exclude]
         r = pend[ch.low(len(pend), "which-pending", 0.7)] if ch.flag("oldest-first", 0.4) else ch.pick(pend, "which-pending")
-        how = ch.pick(("ok", "error", "progress"), "how", (5, 2, 2 if (r.kind == "call" and "progress" in r.opts["opt"]) else 0))
+        # (a router may send a progressive result nobody asked for: a call without a progress handler ignores it)
+        how = ch.pick(("ok", "error", "progress"), "how", (5, 2, 2 if (r.kind == "call" and "progress" in r.opts["opt"]) else (
+            0.5 if r.kind == "call" else 0)))
         args, kwargs = ch.pick(ARGSETS, "reply-args")
         if r.cancelled and how == "ok" and ch.flag("cancel-wins", 0.7):
             how = "error"
         if how == "progress":
             msg = M.Result(r.id, args=list(args), kwargs=dict(kwargs) or None, progress=True)
-            if r.state == "pending":
+            if "progress" not in r.opts["opt"]:
+                self.run.probe("unsolicited-progressive-result")
+            elif r.state == "pending":
                 r.progress_exp.append(("callresult" if "details" in r.opts["opt"] else "plain", tuple(jsonish(list(args))), jsonish(kwargs)))
             self.run.probe("progressive-result")
             self.send_legal(r, msg, final=False)
